@@ -140,6 +140,32 @@ M = [
   "\tsharedInstance, err := f.singletonComponentRegistry.GetSingleton(name, true)\n\tif err != nil {\n\t\treturn nil, err\n\t}\n\tif sharedInstance != nil && !f.singletonComponentRegistry.IsSingletonCurrentlyInCreation(name) {","early references ignored for names in creation (a cycle re-enters creation)"),
  ("C02-m07","C02","container/processors/dependency_aware_post_processors.go",
   "\tfor _, prop := range properties {","\tfor i := 0; i < len(properties); {\n\t\tprop := properties[i]","loop over the injection points never advances"),
+ # ---- fourth batch: skipped work / early exits (probing contracts that are sound but not complete) ----
+ ("C05-m03","C05","container/factory/factory.go",
+  "\t\t\tif dependencies := node.Injects; len(dependencies) != 0 {",
+  "\t\t\tif dependencies := node.Injects; len(dependencies) > 1 {","single-candidate injection points never injected"),
+ ("C05-m04","C05","container/factory/factory.go",
+  "\t\t\t\terr = node.Inject(injects)\n\t\t\t\tif err != nil {\n\t\t\t\t\treturn err\n\t\t\t\t}",
+  "\t\t\t\terr = node.Inject(injects)\n\t\t\t\tif err != nil {\n\t\t\t\t\treturn err\n\t\t\t\t}\n\t\t\t\tbreak","only the first injection point of a component is populated"),
+ ("C05-m05","C05","container/factory/post_processor_registration_delegate.go",
+  "\t\tif current == nil {\n\t\t\treturn nil, nil\n\t\t}\n\t}\n\treturn current, nil",
+  "\t\tif current == nil {\n\t\t\treturn nil, nil\n\t\t}\n\t\tbreak\n\t}\n\treturn current, nil","only the first before-initialization processor runs"),
+ ("C05-m06","C05","container/factory/post_processor_registration_delegate.go",
+  "\t}\n\tif c, ok := component.(definition.InitializeComponent); ok {\n\t\tf.logger().Tracef(\"invoking init method",
+  "\t} else if c, ok := component.(definition.InitializeComponent); ok {\n\t\tf.logger().Tracef(\"invoking init method","Init skipped for components that also have AfterPropertiesSet"),
+ ("C14-m03","C14","app/app.go",
+  "\t\tfor _, m := range s.CloserComponents {\n\t\t\tgo func(m definition.CloserComponent) {",
+  "\t\tfor _, m := range s.CloserComponents[1:] {\n\t\t\tgo func(m definition.CloserComponent) {","first closer never closed"),
+ ("C09-m06","C09","container/factory/factory.go",
+  "\t\t}\n\t\tif p, ok := singleton.(container.DefinitionRegistryPostProcessor); ok {",
+  "\t\t} else if p, ok := singleton.(container.DefinitionRegistryPostProcessor); ok {","a processor that is both a component and a definition-registry post-processor is registered as the former only"),
+ ("C11-m05","C11","container/processors/default_tag_scan_definition_registry_post_processor.go",
+  "\t\t\t\tproperties = append(properties, component_definition.NewProperty(field, d.NodeType, d.Tag, tagVal))\n\t\t\t\tcontinue",
+  "\t\t\t\tproperties = append(properties, component_definition.NewProperty(field, d.NodeType, d.Tag, tagVal))\n\t\t\t\tbreak","scan stops at the first tagged field"),
+ ("C15-m03","C15","configure/configure.go",
+  "\t\tif len(config) != 0 {","\t\tif len(config) != 0 && i == 0 {","only the first loader's document reaches the binder"),
+ ("C06-m03","C06","container/support/component_definition_registry.go",
+  "\t\tif container.And(opts...)(m) {","\t\tif container.And(opts...)(m) && len(metas) == 0 {","GetMetas returns at most one definition"),
 ]
 def main():
     env = dict(os.environ, GOFLAGS="-mod=mod", GOPROXY="off", GOSUMDB="off", GOTOOLCHAIN="local")
